@@ -11,8 +11,14 @@ import (
 	"github.com/BondMachineHQ/BondMachine/pkg/procbuilder"
 )
 
-// AssembleBasm runs the real assembler on BASM source text.
+// AssembleBasm runs the real assembler on BASM source text (no chooser options).
 func AssembleBasm(src string) (bm *bondmachine.Bondmachine, bi *basm.BasmInstance, err error) {
+	return AssembleBasmOpts(src)
+}
+
+// AssembleBasmOpts runs the real assembler with the given bmconfig options activated (as the
+// flags of cmd/basm do, e.g. bmconfig.ChooserMinWordSize).
+func AssembleBasmOpts(src string, opts ...uint64) (bm *bondmachine.Bondmachine, bi *basm.BasmInstance, err error) {
 	defer func() {
 		if e := recover(); e != nil {
 			err = fmt.Errorf("basm panic: %v", e)
@@ -20,6 +26,9 @@ func AssembleBasm(src string) (bm *bondmachine.Bondmachine, bi *basm.BasmInstanc
 	}()
 	bi = new(basm.BasmInstance)
 	bi.BasmInstanceInit(nil)
+	for _, o := range opts {
+		bi.Activate(o)
+	}
 	if err = bi.ParseAssemblyStringDefault(src); err != nil {
 		return nil, bi, err
 	}
